@@ -5,14 +5,20 @@ Theorem c11_first : forall l, Inv (st l) -> connected l = true ->
   exists l1 l2 reqs,
     lstep l Fail = Stepped l1 /\ lstep l1 (Reconnect true) = Stepped l2 /\
     Permutation.Permutation reqs (held (st l)) /\
-    pending l2 = pending l ++ reqs ++ filter not_puback (chan l) /\ chan l2 = [] /\
+    pending l2 = reqs ++ pending l ++ filter not_puback (chan l) /\ chan l2 = [] /\
     held (st l2) = [] /\ wire l2 = [] /\ connected l2 = true /\ Inv (st l2).
 Proof. exact fail_then_resume. Qed.
 
 Theorem c11_pending_before_channel : forall l r rest, pending l = r :: rest ->
   next_request l = Some (r, mkLoop (st l) rest (chan l) (connected l) (wire l) (yielded l)) /\
-  (connected l = true -> events (st l) = [] -> take_enabled l = true).
+  (connected l = true -> events (st l) = [] -> inflight (st l) < max_inflight (st l) -> collision (st l) = None ->
+   take_enabled l = true).
 Proof. exact pending_first. Qed.
+
+Theorem c11_f20_refuted_before_fix :
+  option_map wire (lrun_orig (linit 1 false) f20_loop_history) = Some [PPublish (mkPub Q1 1 2 2)]
+  /\ option_map (fun l => (wire l, pending l)) (lrun (linit 1 false) f20_loop_history) = Some ([PPubRel 1], [pq1 2]).
+Proof. exact f20_loop_witness. Qed.
 
 Theorem c11_no_session : forall l, connected l = false ->
   exists l', lstep l (Reconnect false) = Stepped l' /\ pending l' = [] /\ wire l' = [] /\ connected l' = true.
